@@ -182,6 +182,8 @@ def balance(run, repo, ci):
     for case, ts_mode in itertools.product(('balanced', 'products off by one', 'element missing in products'),
                                            (None, 'balanced', 'unbalanced')):
         I = Interp(repo, max_depth=12)
+        # the coefficients and compositions are generic numbers: totals that are not identically equal are unequal
+        I.generic_point = True
         D = I.D
         n1, n2, n3, n4 = (D.sym(k) for k in ('nu1', 'nu2', 'nu3', 'nu4'))
         a1, a2, b1 = D.sym('a1'), D.sym('a2'), D.sym('b1')
